@@ -133,6 +133,9 @@ def run(ctx):
     singles = [v for v in vectors if v["kind"] == "vec"]
     if len(bases) != LAST + 1 or len(singles) < 3000:
         raise vlib.Inconclusive("too few vectors: %d bases, %d deviations" % (len(bases), len(singles)))
+    envs = [v for v in singles if v["devs"][0]["k"].startswith("@env.")]
+    if len(envs) < 100:
+        raise vlib.Inconclusive("too few environment vectors: %d" % len(envs))
     if not any(v["err"] for v in singles) or not any(len(v["oks"]) > 1 for v in singles):
         raise vlib.Inconclusive("vacuous: no vector admits an error / several outcomes")
 
@@ -146,6 +149,7 @@ def run(ctx):
         early = {"schema_version", "auth_name", "auth_pass", "users", "coredns", "dns", "dns.bootstrap_dns",
                  "clients", "zz_extra", "dns.zz_extra"}
         replayed_singles = [v for v in singles if v["start"] >= 5 or v["devs"][0]["k"] in early
+                            or v["devs"][0]["k"].startswith("@env.")
                             or v["devs"][0]["k"].startswith("cl0") or rng.random() < 0.25]
     allv = sorted(bases.values(), key=lambda v: v["v"]) + docs + fams + replayed_singles
 
@@ -190,6 +194,9 @@ def run(ctx):
         if v.get("pair") or v.get("trace"):
             ks = [k for k in v.get("ks", []) if v["start"] < k < LAST]
             v["ks"] = sorted(rng.sample(ks, min(len(ks), 1 if v["start"] < 5 else 3)))
+        elif v["devs"] and v["devs"][0]["k"].startswith("@env."):
+            # the environment matters to steps 1 and 2: split between and after them
+            v["ks"] = [k for k in (1, 2) if v["start"] < k]
         else:
             v["ks"] = pick_ks(v, rng, ctx.tier)
     by_id = {v["id"]: v for v in allv}
@@ -232,7 +239,7 @@ def run(ctx):
                 "run; non-trivial = the spec admits an error or several result shapes, or the stamp deviates "
                 "(a null/mistyped/absent key that a later step reads)",
         "loader_accepted": loader, "loader_accepted_family_documents": loader_fam,
-        "client_family_vectors": len(fams),
+        "client_family_vectors": len(fams), "environment_vectors": len(envs),
         # Every enumerated document is replayed in both tiers; the split
         # points are all replayed only for documents starting at schema >= 5
         # in the thorough tier (below 5 every path costs a bcrypt hash).
